@@ -107,6 +107,7 @@ Word Granularity(Byte Header, Byte Segment) {
     case 0x7d:
         return 4;
     case 0x36: /* MN161x */
+    case 0x3a: /* 8x30x */
     case 0x70:
     case 0x71:
     case 0x72:
